@@ -78,7 +78,7 @@ theorem kleinInterp_zero {u1 v1 u2 v2 : ℝ} (hu1 : 0 ≤ u1) (hu1' : u1 ≤ π)
 
 /-- t = 1 on the seam branch needs `to.u` strictly inside `(0, π)`: for `to.u ∈ {0, π}` the code
 returns the other representative of the same point (`u = π - to.u`, mirrored `v`) -/
-theorem kleinInterp_one {u1 v1 u2 v2 : ℝ} (hu1 : 0 ≤ u1) (hu1' : u1 ≤ π) (hu2 : 0 < u2)
+theorem kleinInterp_one {u1 v1 u2 v2 : ℝ} (hu2 : 0 < u2)
     (hu2' : u2 < π) (hv2 : -π ≤ v2) (hv2' : v2 < π) :
     kleinInterp so2Interp so2Wrap u1 v1 u2 v2 1 = (u2, v2) := by
   by_cases h : |u2 - u1| ≤ 1 / 2 * π
